@@ -370,8 +370,8 @@ func checkQExec(e *qexec, completed bool) []string {
 	states := goroutineStates()
 	// (the length is read without waiting for the queue's mutex: it may have been left held)
 	qlen, lenOK := e.q.TryLen()
-	for i := 0; i < 200 && !lenOK; i++ {
-		time.Sleep(50 * time.Microsecond)
+	for i := 0; i < 400 && !lenOK; i++ {
+		time.Sleep(250 * time.Microsecond)
 		qlen, lenOK = e.q.TryLen()
 	}
 	for _, w := range e.ws {
@@ -379,6 +379,10 @@ func checkQExec(e *qexec, completed bool) []string {
 			continue
 		}
 		if e.blockedOnLock(w, states) {
+			if lenOK {
+				// the mutex could be taken just now: what was seen was ordinary contention
+				continue
+			}
 			op := w.ops[w.curOp.Load()]
 			add("mutex-leaked/"+op.Kind, "schedule %v: %s is blocked on the queue's mutex in %s while every other operation has returned or is parked outside the critical sections: an earlier operation returned with the mutex held", e.trace, w.name, op.Kind)
 			continue
